@@ -8,6 +8,7 @@ import (
 	"encoding/json"
 	"fmt"
 	"go/token"
+	"go/types"
 	"os"
 	"os/exec"
 	"path/filepath"
@@ -28,6 +29,7 @@ type Program struct {
 	SSA   *ssa.Program
 	ByRel map[string]*ssa.Package // "pkg/aa" -> package
 	funcs map[string]*ssa.Function
+	insts map[string]*ssa.Function // "pkg/util:RemoveDuplicate[string]"
 }
 
 func GoEnv() []string {
@@ -59,7 +61,7 @@ func Load(repo string) (*Program, error) {
 	}
 	prog, spkgs := ssautil.AllPackages(pkgs, ssa.InstantiateGenerics|ssa.GlobalDebug)
 	prog.Build()
-	p := &Program{Repo: repo, Pkgs: pkgs, SSA: prog, ByRel: map[string]*ssa.Package{}, funcs: map[string]*ssa.Function{}}
+	p := &Program{Repo: repo, Pkgs: pkgs, SSA: prog, ByRel: map[string]*ssa.Package{}, funcs: map[string]*ssa.Function{}, insts: map[string]*ssa.Function{}}
 	if len(pkgs) > 0 {
 		p.Fset = pkgs[0].Fset
 	}
@@ -73,7 +75,15 @@ func Load(repo string) (*Program, error) {
 	}
 	for fn := range ssautil.AllFunctions(prog) {
 		if fn.Pkg == nil {
-			// instantiated generics / wrappers have no Pkg; index by origin pkg
+			// instantiated generics have no Pkg: index them by origin and type arguments
+			if o := fn.Origin(); o != nil && o.Pkg != nil && len(fn.TypeArgs()) > 0 {
+				rel := strings.TrimPrefix(o.Pkg.Pkg.Path(), Module+"/")
+				var ta []string
+				for _, t := range fn.TypeArgs() {
+					ta = append(ta, types.TypeString(t, func(*types.Package) string { return "" }))
+				}
+				p.insts[rel+":"+FuncName(o)+"["+strings.Join(ta, ",")+"]"] = fn
+			}
 			continue
 		}
 		rel := strings.TrimPrefix(fn.Pkg.Pkg.Path(), Module+"/")
@@ -106,6 +116,12 @@ func FuncName(fn *ssa.Function) string {
 
 func (p *Program) Func(rel, name string) *ssa.Function {
 	return p.funcs[rel+":"+name]
+}
+
+// Instance returns the instantiation of a generic function for the given type arguments
+// (as written in the contract: "string", "string,int").
+func (p *Program) Instance(rel, name, typeArgs string) *ssa.Function {
+	return p.insts[rel+":"+name+"["+typeArgs+"]"]
 }
 
 func (p *Program) FuncsOf(rel string) []*ssa.Function {
